@@ -214,6 +214,7 @@ def decide(prop, tier, seed):
             if prop in ps:
                 mine += 1
                 violations.append({'unit': unit, 'label': fail_label(f), 'fn': f['fn'], 'message': f['message'],
+                                   'needs_witness': (ex.unannotated.get(f['fn']) or None),
                                    'clause': f['clause_text'], 'src_lines': f['src_lines'],
                                    'verifier_output': f['rendered'], 'engine': 'verus'})
         # errors that belong to other properties of the same unit do not count against this one
@@ -258,7 +259,7 @@ def decide(prop, tier, seed):
         if k is not None:
             # replay the listed witness on the real code: it must still fail in the listed way
             ok = True
-            if k.get('replay') and finder:
+            if k.get('replay'):
                 out, err = run_replay(k['replay'])
                 ok = bool(out and out.get('violates'))
                 v['known_replay'] = out
@@ -270,13 +271,20 @@ def decide(prop, tier, seed):
     # known findings whose obligation no longer fails are simply not printed
 
     rc = 0
+    undecided = []
     for v in real_violations:
-        witness = None
-        if finder:
+        witness = v.get('fixed_witness')
+        if witness is None and finder:
             try:
                 witness = finder(v, tier)
             except Undecided:
                 witness = None
+        if v.get('needs_witness') and not (witness and witness.get('found')):
+            # the function contains loops the sidecar has no invariant for; without a confirmed
+            # witness the failed obligation only says "not proved"
+            undecided.append('%s failed but %s has unannotated loops at %s and no failing input was found'
+                             % (v['label'], v.get('fn'), ', '.join(v['needs_witness'])))
+            continue
         payload = {'property': prop, 'obligation': v['label'], 'unit': v.get('unit'), 'function': v.get('fn'),
                    'engine': v.get('engine'), 'verifier_message': v['message'], 'clause': v.get('clause'),
                    'source_lines': v.get('src_lines'), 'verifier_output': v.get('verifier_output'),
@@ -291,6 +299,8 @@ def decide(prop, tier, seed):
         rc = 1
     for ln in printed:
         print(ln)
+    if undecided and rc == 0:
+        raise Undecided('unannotated-loop', '\n'.join(undecided))
 
     evidence = {
         'property_id': prop, 'tier': tier, 'seed': seed, 'level': 'proof',
